@@ -24,7 +24,7 @@ REPO = os.environ.get("YMQ_REPO", "/repo")
 ROOT = os.path.dirname(os.path.dirname(os.path.abspath(__file__)))
 
 THEOREMS = ["Ymq.C16." + t for t in (
-    "ecm_cover ecm128_cover pp1_cover pm1_cover ecm_grid_exact ecm128_grid_exact pp1_grid_exact pm1_grid_exact ecm_nothing_above pp1_nothing_above pm1_nothing_above pm1_hit chirpz_coeff pp1_hit ecm_hit chebyshev_recurrence chebyshev_spec exp_modn_spec gcd_factors_prod rho64_proper guard_proper pm1_found pp1_found ecm_found rows_ok pm1_degree pm1_rows_eff pm1_poly_rows reported_le_effective_ecm_counter reported_le_effective_pp1_counter reported_le_effective_pm1_counter ecm_badRows pp1_badRows pm1_badRows bad_rows_miss_a_value reported_le_effective_partial_ecm reported_le_effective_partial_pp1 reported_le_effective_partial_pm1 ecm128_arms_exact walk_reported_counter walk_reported_arms arms_contiguous_ecm arms_contiguous_ecm128 arms_contiguous_pp1 arms_d1_primes_below_b1 ecm_arm_covers").split()]
+    "ecm_cover ecm128_cover pp1_cover pm1_cover ecm_grid_exact ecm128_grid_exact pp1_grid_exact pm1_grid_exact ecm_hits_exact pp1_hits_exact pm1_hits_exact ecm_nothing_above pp1_nothing_above pm1_nothing_above pm1_hit chirpz_coeff pp1_hit ecm_hit chebyshev_recurrence chebyshev_spec exp_modn_spec exp_modn_large_spec gcd_factors_prod rho64_proper guard_proper pm1_found pp1_found ecm_found rows_ok pm1_degree pm1_rows_eff pm1_poly_rows reported_le_effective_ecm_counter reported_le_effective_pp1_counter reported_le_effective_pm1_counter ecm_badRows pp1_badRows pm1_badRows bad_rows_miss_a_value reported_le_effective_partial_ecm reported_le_effective_partial_pp1 reported_le_effective_partial_pm1 ecm128_arms_exact walk_reported_counter walk_reported_arms arms_contiguous_ecm arms_contiguous_ecm128 arms_contiguous_pp1 arms_d1_primes_below_b1 ecm_arm_covers ecm128_arm_covers").split()]
 HYPOTHESES = [
     "C17 (stage-1 exponent coverage): the exponent E accumulated by stage 1 is divisible by every prime power below B1 "
     "(and by every prime <= B1 for P-1/P+1); enters pm1_hit / pp1_hit / ecm_hit as the premise `group order of p divides E*m`",
@@ -43,7 +43,7 @@ MODELLED = [
     "index structure (tested exponent sets) of ecm::ecm_curve, ecm128::ecm_curve, pp1::pp1 stage 2, pollard_pm1::pm1_stage2_polyeval "
     "(chirp-z coefficient range) and the P-1 prime walk (Ymq/Model/Stage2.lean; loop bounds regenerated from the source into "
     "Ymq/Gen/Stage2Arms.lean, tables and hard-wired arms in Ymq/Gen/Stage2.lean)",
-    "pollard_pm1::exp_modn (3-bit windows on the reversed exponent), pp1::chebyshev_modn (binary Lucas ladder) over abstract ring "
+    "pollard_pm1::exp_modn (3-bit windows on the reversed exponent), exp_modn_large (6-bit windows), pp1::chebyshev_modn (binary Lucas ladder) over abstract ring "
     "operations, arith_montgomery::gcd_factors/find_factors over an abstract gcd oracle, pollard_rho::rho64 word-exact on the C07 "
     "Montgomery model (Ymq/Model/ExpModn.lean)",
 ]
@@ -51,7 +51,7 @@ UNMODELLED = [
     "stage-1 exponent streams (SmoothBase, pm1 blocks): property C17, premise of the *_hit theorems",
     "ZmodN arithmetic (C07), curve formulas and addition chains (C15), Poly::roots_eval / convolve_modn_ntt (C10), big_gcd (C09): "
     "taken as exact; the constructed-input runs exercise them end to end",
-    "exp_modn_large (6-bit windows), rho_impl, PM1Base::factor: oracle-checked only (no model, no theorem)",
+    "rho_impl, PM1Base::factor, check_gcd_factor(s) wrappers: oracle-checked only (no model, no theorem)",
     "bad-row prime witnesses: that the first missed value listed for a bad row is prime is checked by the translator and the oracle "
     "(Miller-Rabin), not in Lean; Lean proves it is not a grid value and does not divide one",
 ]
@@ -357,7 +357,7 @@ def make_pp1_prime(rng, b1, l, tries=6000):
     return None
 
 
-def interesting_ls(rng, consumer, b1, b2, count):
+def interesting_ls(rng, consumer, b1, b2, count, light=False):
     """primes l > b1 at the places the property names: first/last covered, grid edges, just outside, random"""
     if consumer == "pm1" and b2 <= THRESHOLD:
         first = next_prime(b1)
@@ -368,6 +368,12 @@ def interesting_ls(rng, consumer, b1, b2, count):
     lab, d1, d2 = nearest(consumer, b2)
     eff = pm1_eff(d1, d2) if consumer == "pm1" else sym_eff(d1, d2)
     lo = b1 if consumer in ("ecm", "ecm128") else b1 + 1
+    if light:
+        # big rows (each run costs about a second): the two ends of the cover and the label only
+        top = pm1_qmax(d1, d2) if consumer == "pm1" else d2
+        out = [next_prime(lo - 1), prev_prime(eff + 1), next_prime(eff), prev_prime(lab + 1), next_prime(lab),
+               next_prime(top * d1 - d1 // 2), prev_prime((top - 1) * d1 + d1 // 2), next_prime(rng.randrange(lo, eff))]
+        return [l for l in dict.fromkeys(out) if l >= lo and l > 3]
     out = [next_prime(lo - 1), next_prime(next_prime(lo - 1))]
     # last covered values and the first ones outside
     l = prev_prime(eff + 1)
@@ -439,7 +445,7 @@ def constructed_cases(tier, rng, extended=False):
     plans += [(1000, 30000), (600, 40000), (200, 80000), (200, 60000), (200, 45001), (16384, 40000), (20, 450000), (4, 100000)]
     plans += [(b1, b2) for (b1, b2) in arms() if b2 <= lim and b1 <= 3000000]
     for (b1, b2) in dict.fromkeys(plans):
-        for l in interesting_ls(rng, "pm1", b1, b2, per):
+        for l in interesting_ls(rng, "pm1", b1, b2, per, light=b2 > 3e9):
             c = pm1_case(rng, b1, b2, l, f"pm1/{b1}/{b2}")
             if c:
                 yield c
@@ -448,7 +454,7 @@ def constructed_cases(tier, rng, extended=False):
     plans = [(b1 if r >= 13200 else 16 if r == 660 else 40 if r == 1080 else 100, r) for (b1, r) in plans]
     plans += [(1500, 30000), (2000, 28000000), (80000, 28000000), (30, 660), (50, 1920)]
     for (b1, b2) in dict.fromkeys(plans):
-        for l in interesting_ls(rng, "pp1", b1, b2, per):
+        for l in interesting_ls(rng, "pp1", b1, b2, per, light=b2 > 3e9):
             c = pp1_case(rng, b1, b2, l, f"pp1/{b1}/{b2}")
             if c:
                 yield c
@@ -609,6 +615,11 @@ def ecm_search(rng, attempts, per_class=4):
             continue
         cls = ("first" if l < 1.5 * b1 else "gap" if l <= d1 // 2 else "last" if eff * 11 // 12 <= l <= eff else
                "out" if l > eff else "mid")
+        if cls == "out" and o % 2 == 0:
+            # with a point of even order the non-unified additions of stage 1 can hit an exceptional case modulo p
+            # (difference of the operands = 2-torsion point): the factor then shows up by accident, which is allowed
+            # but not predictable from the index structure; keep the "must not be required" cases exact
+            continue
         key = (a, b1, b2, cls)
         if want.get(key, 0) >= per_class:
             continue
@@ -660,7 +671,7 @@ def exp_cases(rng, N):
         bits = rng.randrange(1, 65)
         k = rng.getrandbits(bits) | (1 << (bits - 1))
         yield Case(f"s2_cheb {n} {rng.randrange(0, n)} {k}", tag="cheb")
-    # 6-bit windows: oracle only
+    # 6-bit windows
     for i in range(N // 2):
         n = rng.choice(mods)
         bits = rng.choice([1, 2, 63, 64, 65, 66, 70, 71, 127, 128, 129, 130, 640, 1000, 1019, 1020, 1021, 1022, 1023, 1024,
@@ -672,7 +683,7 @@ def exp_cases(rng, N):
             e = 1 << (bits - 1)
         if i % 9 == 2:
             e = (1 << (bits - 1)) | (rng.choice([1, 33, 63, 32]) << rng.randrange(0, max(1, bits - 7)))
-        yield Case(f"s2_expmodn_large {n} {rng.randrange(0, n)} {e}", k=False, tag="explarge")
+        yield Case(f"s2_expmodn_large {n} {rng.randrange(0, n)} {e}", tag="explarge")
 
 
 def gcdf_cases(rng, N):
@@ -706,7 +717,11 @@ def gcdf_cases(rng, N):
             vals[0] = vals[0] * rng.choice(ps)         # gcd_first > 1
             if rng.randrange(2):
                 vals[0] = 0
-        yield Case(f"s2_gcdf {n} {','.join(map(str, vals))}", tag="gcdf")
+        if is_chain(n, vals):
+            yield Case(f"s2_gcdf {n} {','.join(map(str, vals))}", tag="gcdf")
+        else:
+            # outside the documented precondition: only the checked profile (debug_assert) is modelled
+            yield Case(f"s2_gcdf {n} {','.join(map(str, vals))}", o=False, profiles=["chk"], tag="gcdf")
 
 
 def is_chain(n, vals):
